@@ -108,320 +108,342 @@ func runC07(r *run) {
 	vid := 0
 	next := func() int { vid++; return vid }
 	for i := 0; i < n; i++ {
-		inherit := g.chance(1, 2)
-		fl := baseFlags
-		if inherit {
-			fl |= slog.LattrsR
-		}
-		slog.SetFlags(fl)
-		format := []string{"logfmt", "json", "color"}[g.intn(3)]
-		depth := 1 + g.intn(4)
-		rec := &recorder{}
-		var chain [][]kvp // outermost first
-		var l slog.Logger = slog.New(fmt.Sprintf("c07-%d", i))
-		var cur slog.Logger = l
-		keyPool := c07Keys[:3+g.intn(len(c07Keys)-3)]
-		emptyKey := i%6 == 5
-		// (the empty string is a key like any other when it comes in an Attr object - it sorts first -; unset slots after
-		// it do not stand in for it. As the first half of a pair it cannot be told from "no key yet": not used that way.)
-		// one prepared Attrs value handed to the first two loggers of the chain, each of which then
-		// gets another attribute of its own: the loggers' own attributes stay their own
-		sharedCase := depth >= 2 && g.chance(1, 4)
-		var sharedKV kvp
-		var sharedAttrs slog.Attrs
-		var extras []kvp
-		var chainLoggers []slog.Logger
-		if sharedCase {
-			sharedKV = kvp{g.pick(keyPool), next()}
-			sharedAttrs = slog.NewAttrs(sharedKV.k, sharedKV.v)
-		}
-		for d := 0; d < depth; d++ {
-			if d > 0 {
-				switch (i + d) % 5 {
-				case 1:
-					cur = cur.With() // a child made by the builder that binds attributes, given none: a logger of its own all the same
-				case 2:
-					cur = cur.WithAttrs()
-				default:
-					cur = cur.New(fmt.Sprintf("child%d", d))
+		i := i
+		func() {
+			defer func() {
+				if p := recover(); p != nil {
+					r.violate(violation{What: "a log call of the case panicked (none of its own values can): something of an earlier record was rendered again",
+						Input: map[string]any{"case": i}, Actual: fmt.Sprint(p)})
 				}
+			}()
+			inherit := g.chance(1, 2)
+			fl := baseFlags
+			if inherit {
+				fl |= slog.LattrsR
 			}
-			chainLoggers = append(chainLoggers, cur)
-			if sharedCase && d < 2 {
-				cur.SetAttrs1(sharedAttrs)
-				e := kvp{g.pick(keyPool), next()}
-				extras = append(extras, e)
-				chain = append(chain, []kvp{sharedKV, e})
-				continue
+			slog.SetFlags(fl)
+			format := []string{"logfmt", "json", "color"}[g.intn(3)]
+			depth := 1 + g.intn(4)
+			rec := &recorder{}
+			var chain [][]kvp // outermost first
+			var l slog.Logger = slog.New(fmt.Sprintf("c07-%d", i))
+			var cur slog.Logger = l
+			keyPool := c07Keys[:3+g.intn(len(c07Keys)-3)]
+			emptyKey := i%6 == 5
+			// (the empty string is a key like any other when it comes in an Attr object - it sorts first -; unset slots after
+			// it do not stand in for it. As the first half of a pair it cannot be told from "no key yet": not used that way.)
+			// one prepared Attrs value handed to the first two loggers of the chain, each of which then
+			// gets another attribute of its own: the loggers' own attributes stay their own
+			sharedCase := depth >= 2 && g.chance(1, 4)
+			var sharedKV kvp
+			var sharedAttrs slog.Attrs
+			var extras []kvp
+			var chainLoggers []slog.Logger
+			if sharedCase {
+				sharedKV = kvp{g.pick(keyPool), next()}
+				sharedAttrs = slog.NewAttrs(sharedKV.k, sharedKV.v)
 			}
-			var own []kvp
-			if !g.chance(1, 3) {
-				for j := g.intn(5); j > 0; j-- {
-					own = append(own, kvp{g.pick(keyPool), next()})
-					if emptyKey && g.chance(1, 3) {
-						own[len(own)-1].k = ""
+			for d := 0; d < depth; d++ {
+				if d > 0 {
+					switch (i + d) % 5 {
+					case 1:
+						cur = cur.With() // a child made by the builder that binds attributes, given none: a logger of its own all the same
+					case 2:
+						cur = cur.WithAttrs()
+					default:
+						cur = cur.New(fmt.Sprintf("child%d", d))
 					}
 				}
-			}
-			if len(own) > 0 {
-				form := g.intn(3)
-				if emptyKey {
-					form = 0
+				chainLoggers = append(chainLoggers, cur)
+				if sharedCase && d < 2 {
+					cur.SetAttrs1(sharedAttrs)
+					e := kvp{g.pick(keyPool), next()}
+					extras = append(extras, e)
+					chain = append(chain, []kvp{sharedKV, e})
+					continue
 				}
-				switch form {
-				case 0:
-					var as []slog.Attr
-					for _, a := range own {
-						as = append(as, slog.Int(a.k, a.v))
-					}
-					cur.SetAttrs(as...)
-				case 1:
-					var args []any
-					for _, a := range own {
-						args = append(args, a.k, a.v)
-					}
-					cur.Set(args...)
-				default:
-					// a prepared list whose entries are pairs and ready Attr objects in any mix (duplicates included:
-					// the last occurrence in the list wins)
-					var args []any
-					for _, a := range own {
-						if g.chance(1, 2) {
-							args = append(args, a.k, a.v)
-						} else {
-							args = append(args, slog.Int(a.k, a.v))
+				var own []kvp
+				if !g.chance(1, 3) {
+					for j := g.intn(5); j > 0; j-- {
+						own = append(own, kvp{g.pick(keyPool), next()})
+						if emptyKey && g.chance(1, 3) {
+							own[len(own)-1].k = ""
 						}
 					}
-					cur.SetAttrs1(slog.NewAttrs(args...))
 				}
-			}
-			chain = append(chain, own)
-		}
-		if sharedCase {
-			for d, e := range extras {
-				chainLoggers[d].SetAttrs(slog.Int(e.k, e.v))
-			}
-		}
-		cur.SetWriter(rec).SetErrorWriter(rec).SetLevel(slog.InfoLevel)
-		switch format {
-		case "json":
-			cur.SetJSONMode(true)
-		case "logfmt":
-			cur.SetColorMode(false)
-		default:
-			cur.SetColorMode(true)
-		}
-		// context keys
-		var ctx context.Context = context.Background()
-		var fromCtx []kvp
-		nCtxKeys := 0
-		if g.chance(1, 2) || i < 4 {
-			var keys []any
-			for j := 1 + g.intn(3); j > 0; j-- {
-				name := g.pick(keyPool)
-				present := g.chance(2, 3)
-				if i < 4 {
-					name, present = fmt.Sprintf("ctxonly%d", j), true // not overridden by any call-site key
-				}
-				v := next()
-				switch g.intn(3) {
-				case 0:
-					keys = append(keys, name)
-					if present {
-						ctx = context.WithValue(ctx, name, v) //nolint
+				if len(own) > 0 {
+					form := g.intn(3)
+					if emptyKey {
+						form = 0
 					}
-				case 1:
-					k := &c07Stringer{name}
-					keys = append(keys, k)
-					if present {
-						ctx = context.WithValue(ctx, k, v)
-					}
-				default:
-					keys = append(keys, 12345+j) // neither string nor Stringer: never printed
-					if present {
-						ctx = context.WithValue(ctx, 12345+j, v)
-					}
-					present = false
-				}
-				nCtxKeys++
-			}
-			// the keys may be registered in two steps, with records emitted before and in between: a
-			// key registered after the logger's first record counts like any other
-			if g.chance(1, 3) {
-				cur.InfoContext(ctx, "warm-up before any key is registered")
-			}
-			if g.chance(1, 3) {
-				// keys registered earlier and dropped again leave no trace
-				cur.SetContextKeys(&c07Stringer{"dropped-1"}, "dropped-2", &c07Stringer{"dropped-3"})
-				cur.InfoContext(ctx, "warm-up with keys that are reset afterwards")
-				cur.(interface{ ResetContextKeys(keys ...any) *slog.Entry }).ResetContextKeys()
-			}
-			if len(keys) >= 2 && g.chance(1, 2) {
-				cur.SetContextKeys(keys[:1]...)
-				cur.InfoContext(ctx, "warm-up between two registrations")
-				cur.SetContextKeys(keys[1:]...)
-			} else {
-				cur.SetContextKeys(keys...)
-			}
-			rec.take()
-			// what the context holds for the registered keys, in registration order (the later
-			// WithValue for an equal key shadows the earlier)
-			for _, k := range keys {
-				if v := ctx.Value(k); v != nil {
-					switch kk := k.(type) {
-					case string:
-						fromCtx = append(fromCtx, kvp{kk, v.(int)})
-					case *c07Stringer:
-						fromCtx = append(fromCtx, kvp{kk.name, v.(int)})
+					switch form {
+					case 0:
+						var as []slog.Attr
+						for _, a := range own {
+							as = append(as, slog.Int(a.k, a.v))
+						}
+						cur.SetAttrs(as...)
+					case 1:
+						var args []any
+						for _, a := range own {
+							args = append(args, a.k, a.v)
+						}
+						cur.Set(args...)
+					default:
+						// a prepared list whose entries are pairs and ready Attr objects in any mix (duplicates included:
+						// the last occurrence in the list wins)
+						var args []any
+						for _, a := range own {
+							if g.chance(1, 2) {
+								args = append(args, a.k, a.v)
+							} else {
+								args = append(args, slog.Int(a.k, a.v))
+							}
+						}
+						cur.SetAttrs1(slog.NewAttrs(args...))
 					}
 				}
+				chain = append(chain, own)
 			}
-		}
-		if g.chance(1, 3) {
-			// a record under the other inherit flag, inside a save / modify / restore scope: what was collected there
-			// does not outlive the scope
-			var restore func()
-			if inherit {
-				restore = slog.SaveFlagsAndMod(0, slog.LattrsR)
-			} else {
-				restore = slog.SaveFlagsAndMod(slog.LattrsR)
+			if sharedCase {
+				for d, e := range extras {
+					chainLoggers[d].SetAttrs(slog.Int(e.k, e.v))
+				}
 			}
-			cur.InfoContext(ctx, "warm-up under the other inherit flag")
-			restore()
-			rec.take()
-		}
-		if depth >= 2 && !sharedCase && g.chance(1, 3) {
-			// a record first, then one more attribute on an ancestor: the next record knows about it
-			cur.InfoContext(ctx, "warm-up before an ancestor gets another attribute")
-			rec.take()
-			d := g.intn(depth - 1)
-			e := kvp{g.pick(keyPool), next()}
-			chainLoggers[d].Set(e.k, e.v)
-			chain[d] = append(chain[d], e)
-		}
-		nilCtx := g.chance(1, 10) && i >= 4
-		// call-site arguments
-		na := g.intn(20)
-		if g.chance(1, 2) {
-			na = 9 + g.intn(8)
-		} else if g.chance(1, 8) {
-			na = 30 + g.intn(35)
-		}
-		if i < 4 {
-			// the very first records of the process are large ones with context values: whatever is
-			// recycled between records has never carried that many attributes before
-			na = 100 + 20*i + g.intn(20)
-		}
-		var args []kvp
-		var callArgs []any
-		for j := 0; j < na; j++ {
-			a := kvp{g.pick(keyPool), next()}
-			form := g.intn(3)
-			if emptyKey && g.chance(1, 4) {
-				a.k, form = "", 1+g.intn(2)
-			}
-			args = append(args, a)
-			switch form {
-			case 0:
-				callArgs = append(callArgs, a.k, a.v)
-			case 1:
-				callArgs = append(callArgs, slog.Int(a.k, a.v))
+			cur.SetWriter(rec).SetErrorWriter(rec).SetLevel(slog.InfoLevel)
+			switch format {
+			case "json":
+				cur.SetJSONMode(true)
+			case "logfmt":
+				cur.SetColorMode(false)
 			default:
-				callArgs = append(callArgs, slog.NewAttr(a.k, a.v))
+				cur.SetColorMode(true)
 			}
-		}
-		if len(callArgs) > 0 && g.chance(1, 6) {
-			callArgs = []any{slog.NewAttrs(callArgs...)} // the same arguments as one prepared list
-		}
-		if emptyKey {
-			// unset slots at the end of the argument list, and (half of the time) at the end of the logger's own list
-			callArgs = append(callArgs, []slog.Attr{nil}, slog.NewAttrs())
-			if i%12 == 5 {
-				cur.SetAttrs(nil)
+			// context keys
+			var ctx context.Context = context.Background()
+			var fromCtx []kvp
+			nCtxKeys := 0
+			if g.chance(1, 2) || i < 4 {
+				var keys []any
+				for j := 1 + g.intn(3); j > 0; j-- {
+					name := g.pick(keyPool)
+					present := g.chance(2, 3)
+					if i < 4 {
+						name, present = fmt.Sprintf("ctxonly%d", j), true // not overridden by any call-site key
+					}
+					v := next()
+					switch g.intn(3) {
+					case 0:
+						keys = append(keys, name)
+						if present {
+							ctx = context.WithValue(ctx, name, v) //nolint
+						}
+					case 1:
+						k := &c07Stringer{name}
+						keys = append(keys, k)
+						if present {
+							ctx = context.WithValue(ctx, k, v)
+						}
+					default:
+						keys = append(keys, 12345+j) // neither string nor Stringer: never printed
+						if present {
+							ctx = context.WithValue(ctx, 12345+j, v)
+						}
+						present = false
+					}
+					nCtxKeys++
+				}
+				// the keys may be registered in two steps, with records emitted before and in between: a
+				// key registered after the logger's first record counts like any other
+				if g.chance(1, 3) {
+					cur.InfoContext(ctx, "warm-up before any key is registered")
+				}
+				if g.chance(1, 3) {
+					// keys registered earlier and dropped again leave no trace
+					cur.SetContextKeys(&c07Stringer{"dropped-1"}, "dropped-2", &c07Stringer{"dropped-3"})
+					cur.InfoContext(ctx, "warm-up with keys that are reset afterwards")
+					cur.(interface{ ResetContextKeys(keys ...any) *slog.Entry }).ResetContextKeys()
+				}
+				if len(keys) >= 2 && g.chance(1, 2) {
+					cur.SetContextKeys(keys[:1]...)
+					cur.InfoContext(ctx, "warm-up between two registrations")
+					cur.SetContextKeys(keys[1:]...)
+				} else {
+					cur.SetContextKeys(keys...)
+				}
+				rec.take()
+				// what the context holds for the registered keys, in registration order (the later
+				// WithValue for an equal key shadows the earlier)
+				for _, k := range keys {
+					if v := ctx.Value(k); v != nil {
+						switch kk := k.(type) {
+						case string:
+							fromCtx = append(fromCtx, kvp{kk, v.(int)})
+						case *c07Stringer:
+							fromCtx = append(fromCtx, kvp{kk.name, v.(int)})
+						}
+					}
+				}
 			}
-		}
-		if nilCtx {
-			fromCtx = nil
-			cur.InfoContext(nil, "probe-message", callArgs...) //nolint
-		} else {
-			cur.InfoContext(ctx, "probe-message", callArgs...)
-		}
-		w := rec.take()
-		obs := "no-record"
-		var got []kvp
-		if len(w) == 1 {
-			var err error
-			got, err = c07Parse(format, w[0])
-			if err != nil {
-				obs = "unparsable"
-			} else {
+			if g.chance(1, 3) {
+				// a record under the other inherit flag, inside a save / modify / restore scope: what was collected there
+				// does not outlive the scope
+				var restore func()
+				if inherit {
+					restore = slog.SaveFlagsAndMod(0, slog.LattrsR)
+				} else {
+					restore = slog.SaveFlagsAndMod(slog.LattrsR)
+				}
+				cur.InfoContext(ctx, "warm-up under the other inherit flag")
+				restore()
+				rec.take()
+			}
+			if depth >= 2 && !sharedCase && g.chance(1, 3) {
+				// a record first, then one more attribute on an ancestor: the next record knows about it
+				cur.InfoContext(ctx, "warm-up before an ancestor gets another attribute")
+				rec.take()
+				d := g.intn(depth - 1)
+				e := kvp{g.pick(keyPool), next()}
+				chainLoggers[d].Set(e.k, e.v)
+				chain[d] = append(chain[d], e)
+			}
+			if i%7 == 3 {
+				// an unrelated record that is cut short by a value whose String() panics (the application recovers): nothing of
+				// it may turn up in the next record
+				encPanicNoise([]string{"l", "j", "c"}[(i/7)%3])
+			}
+			nilCtx := g.chance(1, 10) && i >= 4
+			// call-site arguments
+			na := g.intn(20)
+			if g.chance(1, 2) {
+				na = 9 + g.intn(8)
+			} else if g.chance(1, 8) {
+				na = 30 + g.intn(35)
+			}
+			if i < 4 {
+				// the very first records of the process are large ones with context values: whatever is
+				// recycled between records has never carried that many attributes before
+				na = 100 + 20*i + g.intn(20)
+			}
+			var args []kvp
+			var callArgs []any
+			for j := 0; j < na; j++ {
+				a := kvp{g.pick(keyPool), next()}
+				form := g.intn(3)
+				if emptyKey && g.chance(1, 4) {
+					a.k, form = "", 1+g.intn(2)
+				}
+				args = append(args, a)
+				switch form {
+				case 0:
+					callArgs = append(callArgs, a.k, a.v)
+				case 1:
+					callArgs = append(callArgs, slog.Int(a.k, a.v))
+				default:
+					callArgs = append(callArgs, slog.NewAttr(a.k, a.v))
+				}
+			}
+			if len(callArgs) > 0 && g.chance(1, 6) {
+				callArgs = []any{slog.NewAttrs(callArgs...)} // the same arguments as one prepared list
+			}
+			if emptyKey {
+				// unset slots at the end of the argument list, and (half of the time) at the end of the logger's own list
+				callArgs = append(callArgs, []slog.Attr{nil}, slog.NewAttrs())
+				if i%12 == 5 {
+					cur.SetAttrs(nil)
+				}
+			}
+			func() {
+				defer func() {
+					if p := recover(); p != nil {
+						r.violate(violation{What: "the probe call panicked (none of its own values can): something of an earlier record was rendered again",
+							Input: map[string]any{"format": format, "call_args": fmt.Sprint(args), "case": i}, Actual: fmt.Sprint(p)})
+					}
+				}()
+				if nilCtx {
+					fromCtx = nil
+					cur.InfoContext(nil, "probe-message", callArgs...) //nolint
+				} else {
+					cur.InfoContext(ctx, "probe-message", callArgs...)
+				}
+			}()
+			w := rec.take()
+			obs := "no-record"
+			var got []kvp
+			if len(w) == 1 {
+				var err error
+				got, err = c07Parse(format, w[0])
+				if err != nil {
+					obs = "unparsable"
+				} else {
+					var parts []string
+					for _, a := range got {
+						parts = append(parts, hxs(a.k)+":"+strconv.Itoa(a.v))
+					}
+					obs = strings.Join(parts, ",")
+					if obs == "" {
+						obs = "-"
+					}
+				}
+			}
+			enc := func(xs []kvp) string {
 				var parts []string
-				for _, a := range got {
+				for _, a := range xs {
 					parts = append(parts, hxs(a.k)+":"+strconv.Itoa(a.v))
 				}
-				obs = strings.Join(parts, ",")
-				if obs == "" {
-					obs = "-"
+				return strings.Join(parts, ",")
+			}
+			var h []string
+			for d := len(chain) - 1; d >= 0; d-- { // innermost first for the model
+				h = append(h, enc(chain[d]))
+			}
+			r.emit(fmt.Sprintf("C07 rec %d %d c=%s h=%s a=%s", int64(fl), nCtxKeys, enc(fromCtx), strings.Join(h, "/"), enc(args)), obs)
+			// oracle: reference merge from the statement
+			var all []kvp
+			all = append(all, fromCtx...)
+			if inherit {
+				for _, own := range chain {
+					all = append(all, own...)
+				}
+			} else {
+				all = append(all, chain[len(chain)-1]...)
+			}
+			all = append(all, args...)
+			last := map[string]int{}
+			for _, a := range all {
+				last[a.k] = a.v
+			}
+			var keys []string
+			for k := range last {
+				keys = append(keys, k)
+			}
+			sort.Strings(keys)
+			var want []kvp
+			for _, k := range keys {
+				want = append(want, kvp{k, last[k]})
+			}
+			collision := len(all) != len(last)
+			empties := 0
+			for _, own := range chain {
+				if len(own) == 0 {
+					empties++
 				}
 			}
-		}
-		enc := func(xs []kvp) string {
-			var parts []string
-			for _, a := range xs {
-				parts = append(parts, hxs(a.k)+":"+strconv.Itoa(a.v))
+			key := ""
+			if collision || (inherit && depth > 1) {
+				key = fmt.Sprintf("%d|%d|%d|%v|%d|%v|%s", depth, empties, len(args)/4, collision, len(fromCtx), inherit, format)
 			}
-			return strings.Join(parts, ",")
-		}
-		var h []string
-		for d := len(chain) - 1; d >= 0; d-- { // innermost first for the model
-			h = append(h, enc(chain[d]))
-		}
-		r.emit(fmt.Sprintf("C07 rec %d %d c=%s h=%s a=%s", int64(fl), nCtxKeys, enc(fromCtx), strings.Join(h, "/"), enc(args)), obs)
-		// oracle: reference merge from the statement
-		var all []kvp
-		all = append(all, fromCtx...)
-		if inherit {
-			for _, own := range chain {
-				all = append(all, own...)
+			r.seen(key)
+			r.count(fmt.Sprintf("nargs=%02d-%02d", len(args)/8*8, len(args)/8*8+7))
+			if fmt.Sprint(got) != fmt.Sprint(want) || len(w) != 1 {
+				r.violate(violation{What: "emitted attributes differ from the reference merge (sources, last-wins, ascending order)",
+					Input:    map[string]any{"inherit_flag": inherit, "format": format, "chain_outermost_first": fmt.Sprint(chain), "context_values": fmt.Sprint(fromCtx), "call_args": fmt.Sprint(args), "nil_context": nilCtx},
+					Expected: fmt.Sprint(want), Actual: fmt.Sprint(got)})
 			}
-		} else {
-			all = append(all, chain[len(chain)-1]...)
-		}
-		all = append(all, args...)
-		last := map[string]int{}
-		for _, a := range all {
-			last[a.k] = a.v
-		}
-		var keys []string
-		for k := range last {
-			keys = append(keys, k)
-		}
-		sort.Strings(keys)
-		var want []kvp
-		for _, k := range keys {
-			want = append(want, kvp{k, last[k]})
-		}
-		collision := len(all) != len(last)
-		empties := 0
-		for _, own := range chain {
-			if len(own) == 0 {
-				empties++
+			if i < 5 {
+				r.sample(map[string]any{"chain": fmt.Sprint(chain), "ctx": fmt.Sprint(fromCtx), "args": fmt.Sprint(args), "inherit": inherit, "emitted": fmt.Sprint(got)})
 			}
-		}
-		key := ""
-		if collision || (inherit && depth > 1) {
-			key = fmt.Sprintf("%d|%d|%d|%v|%d|%v|%s", depth, empties, len(args)/4, collision, len(fromCtx), inherit, format)
-		}
-		r.seen(key)
-		r.count(fmt.Sprintf("nargs=%02d-%02d", len(args)/8*8, len(args)/8*8+7))
-		if fmt.Sprint(got) != fmt.Sprint(want) || len(w) != 1 {
-			r.violate(violation{What: "emitted attributes differ from the reference merge (sources, last-wins, ascending order)",
-				Input:    map[string]any{"inherit_flag": inherit, "format": format, "chain_outermost_first": fmt.Sprint(chain), "context_values": fmt.Sprint(fromCtx), "call_args": fmt.Sprint(args), "nil_context": nilCtx},
-				Expected: fmt.Sprint(want), Actual: fmt.Sprint(got)})
-		}
-		if i < 5 {
-			r.sample(map[string]any{"chain": fmt.Sprint(chain), "ctx": fmt.Sprint(fromCtx), "args": fmt.Sprint(args), "inherit": inherit, "emitted": fmt.Sprint(got)})
-		}
+		}()
 	}
 	// groups built from free-form arguments (slog.Group): inside a group too the last occurrence of a
 	// key wins and the members come out in ascending key order — also for large groups
